@@ -61,7 +61,7 @@ func runC03(ctx *core.Ctx, pool *par.Pool) {
 	total := xstate.Stats{}
 	for _, cfg := range cfgs {
 		st := xstate.BFS(ctx, pool, xstate.Spec{Cfg: cfg, Alphabet: c03Alphabet(cfg, ctx.Quick()), MaxDepth: depth,
-			OnTransition: func(from *xstate.Node, s *xstate.Succ, isNew bool) {
+			OnTransition: func(from *xstate.Node, s *xstate.Succ, isNew bool, _ *xstate.Node) {
 				if isNew && from.Depth >= 3 {
 					ctx.AddSample(map[string]interface{}{"cfg": cfg.Name, "history": pagedrv.PathString(append(from.Path(), s.Op))})
 				}
